@@ -4,7 +4,7 @@
 (* its completion so that recorded executions can be matched step by step.     *)
 EXTENDS Naturals, Sequences, FiniteSets, TLC
 
-CONSTANTS ReaderCap, ValCap0         \* real: 100 and 128 (k-th validator: ValCap0 * 2^min(k-1,7))
+CONSTANTS ReaderCap, ValCap0         \* real: 100 and 128 (first validator ValCap0, k-th (k >= 2): ValCap0 * 2^min(k,7); validator_dispatcher.rs:84-113)
 VARIABLES rpc, rlen,                 \* reader: "check" | "sending" | "done"; length of the batch being sent
           qRA,                       \* queue of batch lengths
           rcvMain, rcvA,             \* live receiver handles of the reader channel
@@ -16,7 +16,7 @@ VARIABLES rpc, rlen,                 \* reader: "check" | "sending" | "done"; le
 vars == << rpc, rlen, qRA, rcvMain, rcvA, apc, arem, vorder, qV, vSend, vpc, mpc, cpc, stop >>
 
 Spawned == {vorder[i] : i \in 1..Len(vorder)}
-CapOf(l) == LET k == CHOOSE i \in 1..Len(vorder) : vorder[i] = l IN ValCap0 * (2 ^ (IF k - 1 < 7 THEN k - 1 ELSE 7))
+CapOf(l) == LET k == CHOOSE i \in 1..Len(vorder) : vorder[i] = l IN IF k = 1 THEN ValCap0 ELSE ValCap0 * (2 ^ (IF k < 7 THEN k ELSE 7))
 Fn(S, v) == [x \in S |-> v]
 Ext(f, k, v) == [x \in DOMAIN f \cup {k} |-> IF x = k THEN v ELSE f[x]]
 
@@ -40,8 +40,12 @@ REofExit == rpc = "check" /\ rpc' = "done" /\ U(<< rlen, qRA, rcvMain, rcvA, apc
 \* ---------- analysis ----------
 ACheck == apc = "check" /\ apc' = (IF stop THEN "join" ELSE "recv")
           /\ U(<< rpc, rlen, qRA, rcvMain, rcvA, arem, vorder, qV, vSend, vpc, mpc, cpc, stop >>)
-ARecv(n) == apc = "recv" /\ qRA # << >> /\ Head(qRA) = n /\ qRA' = Tail(qRA) /\ arem' = n /\ apc' = "batch"
-            /\ U(<< rpc, rlen, rcvMain, rcvA, vorder, qV, vSend, vpc, mpc, cpc, stop >>)
+\* a receive is two steps: the dequeue (silent: it frees a slot that a blocked sender may use before the receiver has logged anything)
+\* and the event logged after it
+ATake == apc = "recv" /\ qRA # << >> /\ qRA' = Tail(qRA) /\ arem' = Head(qRA) /\ apc' = "taken"
+         /\ U(<< rpc, rlen, rcvMain, rcvA, vorder, qV, vSend, vpc, mpc, cpc, stop >>)
+ARecv(n) == apc = "taken" /\ arem = n /\ apc' = "batch"
+            /\ U(<< rpc, rlen, qRA, rcvMain, rcvA, arem, vorder, qV, vSend, vpc, mpc, cpc, stop >>)
 ARecvDisc == apc = "recv" /\ qRA = << >> /\ rpc = "done" /\ apc' = "join"
              /\ U(<< rpc, rlen, qRA, rcvMain, rcvA, arem, vorder, qV, vSend, vpc, mpc, cpc, stop >>)
 ASpawn(l) == apc = "batch" /\ arem > 0 /\ l \notin Spawned
@@ -62,8 +66,10 @@ AJoinStart == apc = "join" /\ vSend' = [l \in DOMAIN vSend |-> FALSE] /\ apc' = 
 AExit == apc = "joining" /\ (\A l \in Spawned : vpc[l] = "done") /\ apc' = "done" /\ rcvA' = FALSE
          /\ U(<< rpc, rlen, qRA, rcvMain, arem, vorder, qV, vSend, vpc, mpc, cpc, stop >>)
 \* ---------- validators ----------
-VRecv(l) == l \in Spawned /\ vpc[l] \in {"loop", "busy"} /\ qV[l] > 0 /\ qV' = [qV EXCEPT ![l] = @ - 1] /\ vpc' = [vpc EXCEPT ![l] = "busy"]
+VTake(l) == l \in Spawned /\ vpc[l] \in {"loop", "busy"} /\ qV[l] > 0 /\ qV' = [qV EXCEPT ![l] = @ - 1] /\ vpc' = [vpc EXCEPT ![l] = "taken"]
             /\ U(<< rpc, rlen, qRA, rcvMain, rcvA, apc, arem, vorder, vSend, mpc, cpc, stop >>)
+VRecv(l) == l \in Spawned /\ vpc[l] = "taken" /\ vpc' = [vpc EXCEPT ![l] = "busy"]
+            /\ U(<< rpc, rlen, qRA, rcvMain, rcvA, apc, arem, vorder, qV, vSend, mpc, cpc, stop >>)
 VExit(l) == l \in Spawned /\ vpc[l] \in {"loop", "busy"} /\ qV[l] = 0 /\ ~vSend[l] /\ vpc' = [vpc EXCEPT ![l] = "done"]
             /\ U(<< rpc, rlen, qRA, rcvMain, rcvA, apc, arem, vorder, qV, vSend, mpc, cpc, stop >>)
 \* ---------- main ----------
